@@ -251,6 +251,18 @@ macro_rules! own_dyn_sink {
             fn clone_box(&self) -> Box<dyn DynSink> {
                 Box::new(self.clone())
             }
+            fn as_any(&self) -> &dyn std::any::Any {
+                self
+            }
+            fn clone_from_dyn(&mut self, o: &dyn DynSink) -> bool {
+                match o.as_any().downcast_ref::<Self>() {
+                    Some(s) => {
+                        Clone::clone_from(self, s);
+                        true
+                    }
+                    None => false,
+                }
+            }
         }
     };
 }
@@ -275,6 +287,18 @@ impl DynSink for UnitSumSink {
     }
     fn clone_box(&self) -> Box<dyn DynSink> {
         Box::new(self.clone())
+    }
+    fn as_any(&self) -> &dyn std::any::Any {
+        self
+    }
+    fn clone_from_dyn(&mut self, o: &dyn DynSink) -> bool {
+        match o.as_any().downcast_ref::<Self>() {
+            Some(s) => {
+                Clone::clone_from(self, s);
+                true
+            }
+            None => false,
+        }
     }
 }
 
@@ -342,6 +366,9 @@ pub trait DynSink {
     fn ff(&mut self, x: Val) -> String;
     fn fin(&self) -> String;
     fn clone_box(&self) -> Box<dyn DynSink>;
+    fn as_any(&self) -> &dyn std::any::Any;
+    /// `self.clone_from(o)` (both of the same concrete type)
+    fn clone_from_dyn(&mut self, o: &dyn DynSink) -> bool;
 }
 
 impl<T: Render> Render for sinks::bounds::Output<T> {
@@ -377,6 +404,18 @@ macro_rules! dyn_sink {
             }
             fn clone_box(&self) -> Box<dyn DynSink> {
                 Box::new(self.clone())
+            }
+            fn as_any(&self) -> &dyn std::any::Any {
+                self
+            }
+            fn clone_from_dyn(&mut self, o: &dyn DynSink) -> bool {
+                match o.as_any().downcast_ref::<Self>() {
+                    Some(s) => {
+                        Clone::clone_from(self, s);
+                        true
+                    }
+                    None => false,
+                }
             }
         }
     };
@@ -414,6 +453,18 @@ impl DynSink for sinks::last::Last<Fz> {
     fn clone_box(&self) -> Box<dyn DynSink> {
         Box::new(self.clone())
     }
+    fn as_any(&self) -> &dyn std::any::Any {
+        self
+    }
+    fn clone_from_dyn(&mut self, o: &dyn DynSink) -> bool {
+        match o.as_any().downcast_ref::<Self>() {
+            Some(s) => {
+                Clone::clone_from(self, s);
+                true
+            }
+            None => false,
+        }
+    }
 }
 // ... and at the smallest machine integers
 dyn_sink!(sinks::min::Min<u8>, u8);
@@ -435,6 +486,18 @@ impl DynSink for sinks::collect::Collect<Vec<Q>> {
     fn clone_box(&self) -> Box<dyn DynSink> {
         Box::new(self.clone())
     }
+    fn as_any(&self) -> &dyn std::any::Any {
+        self
+    }
+    fn clone_from_dyn(&mut self, o: &dyn DynSink) -> bool {
+        match o.as_any().downcast_ref::<Self>() {
+            Some(s) => {
+                Clone::clone_from(self, s);
+                true
+            }
+            None => false,
+        }
+    }
 }
 impl DynSink for sinks::last::Last<Q> {
     fn sink(&mut self, x: Val) {
@@ -448,6 +511,18 @@ impl DynSink for sinks::last::Last<Q> {
     }
     fn clone_box(&self) -> Box<dyn DynSink> {
         Box::new(self.clone())
+    }
+    fn as_any(&self) -> &dyn std::any::Any {
+        self
+    }
+    fn clone_from_dyn(&mut self, o: &dyn DynSink) -> bool {
+        match o.as_any().downcast_ref::<Self>() {
+            Some(s) => {
+                Clone::clone_from(self, s);
+                true
+            }
+            None => false,
+        }
     }
 }
 
@@ -499,6 +574,17 @@ pub enum OwnStage {
     Affine { a: Q, b: Q },
     Lag { prev: Q },
     RunMax { m: Option<Q> },
+    /// a side chain: the stage owns a source pipe of its own (a constant through an identity stage) and polls it on
+    /// every sample it processes — while the pipe it is a stage of is in the middle of one of ITS samples
+    Side { pipe: Pipe<sources::constant::Constant<Q>, IdStage> },
+}
+#[derive(Clone)]
+pub struct IdStage;
+impl Filter<Q> for IdStage {
+    type Output = Q;
+    fn filter(&mut self, x: Q) -> Q {
+        x
+    }
 }
 impl OwnStage {
     fn step(&mut self, x: Q) -> Q {
@@ -509,6 +595,7 @@ impl OwnStage {
             }
             OwnStage::Affine { a, b } => *a * x + *b,
             OwnStage::Lag { prev } => std::mem::replace(prev, x),
+            OwnStage::Side { pipe } => x + pipe.source().expect("the side chain: an endless source pipe reported the end of its stream"),
             OwnStage::RunMax { m } => {
                 let r = match m {
                     None => x,
@@ -529,6 +616,7 @@ pub fn parse_own_stage(l: &str) -> OwnStage {
         "p_affine" => OwnStage::Affine { a: q("a"), b: q("b") },
         "p_lag" => OwnStage::Lag { prev: q("init") },
         "p_max" => OwnStage::RunMax { m: None },
+        "p_side" => OwnStage::Side { pipe: Pipe::new(sources::constant::Constant::new(q("b")), IdStage) },
         k => panic!("harness: not one of the harness's own stages: {}", k),
     }
 }
@@ -936,6 +1024,7 @@ fn build_pipe(line: &str) -> PipeInst {
                 "p_affine" => ProbeInner::Own(OwnStage::Affine { a: q("a"), b: q("b") }),
                 "p_lag" => ProbeInner::Own(OwnStage::Lag { prev: q("init") }),
                 "p_max" => ProbeInner::Own(OwnStage::RunMax { m: None }),
+                "p_side" => ProbeInner::Own(parse_own_stage(l)),
                 kind => ProbeInner::Lib(filt::build(kind, &lkv)),
             };
             alive.set(alive.get() + 1);
@@ -1029,6 +1118,18 @@ impl Other {
                 Some(self.sinks.get_mut(&id(toks[1])).expect("harness: unknown sink id").ff(x))
             }
             "fin" => Some(self.sinks[&id(toks[1])].fin()),
+            // copies of a sink: `kclone a b` (b = a.clone()), `kclonefrom a b` (a.clone_from(&b))
+            "kclone" => {
+                let c = self.sinks[&id(toks[1])].clone_box();
+                self.sinks.insert(id(toks[2]), c);
+                Some("ok".into())
+            }
+            "kclonefrom" => {
+                let src = self.sinks[&id(toks[2])].clone_box();
+                let ok = self.sinks.get_mut(&id(toks[1])).expect("harness: unknown sink id").clone_from_dyn(&*src);
+                assert!(ok, "harness: kclonefrom between different sink types");
+                Some("ok".into())
+            }
             "pf" => {
                 let x = Q::from_val(parse_val(toks[2]));
                 match &mut self.pipes.get_mut(&id(toks[1])).expect("harness: unknown pipe id").top {
